@@ -142,9 +142,9 @@ func SelfTest(e *core.Env) int {
 	os.MkdirAll(dir, 0o755)
 	os.WriteFile(filepath.Join(dir, "hand.go"), []byte(handSrc), 0o644)
 	type tc struct {
-		fn    string
-		want  []string // acceptable violation kinds; empty = must be silent
-		race  bool
+		fn   string
+		want []string // acceptable violation kinds; empty = must be silent
+		race bool
 	}
 	tcs := []tc{
 		{"Good", nil, false},
